@@ -32,7 +32,7 @@ def describe(rep):
     rep.rule = 'case = (helper, N, operator, derivative order / interval); one SMT query over all coefficient vectors in the unit box'
     rep.assume('tolerance 1e-10 * (sum of absolute monomial conversion coefficients): the matrices are float64',
                'the interval map is x = fac * s + off with s in [-1,1]; operators that carry the map are checked on [x0,x1] = [-1,1], [0,1], [-2,5]')
-    rep.out_of_scope('transform / itransform round trip (DCT / FFT at the C boundary)',
+    rep.out_of_scope('transforms in more than one dimension, padded / truncated transforms (shape argument), MPI transforms',
                      'N > 16 (quick: 8); the property ranges to 64', 'GPU / MPI code paths')
 
 
@@ -43,6 +43,8 @@ def tasks(tier, seed):
         T.append(('cheb', N))
         T.append(('ultra', N))
         T.append(('fft', N))
+    for N in ((2, 3, 4, 5, 8) if tier == 'quick' else (2, 3, 4, 5, 6, 7, 8, 12, 16)):
+        T.append(('transform', N))
     T.append(('edge',))
     T.append(('kron',))
     return T
@@ -55,6 +57,8 @@ def run_task(rep, task):
         ultra_case(rep, task[1])
     elif task[0] == 'fft':
         fft_case(rep, task[1])
+    elif task[0] == 'transform':
+        transform_case(rep, task[1])
     elif task[0] == 'edge':
         edge_case(rep)
     elif task[0] == 'kron':
@@ -285,6 +289,57 @@ def ultra_case(rep, N):
             decide(rep, f'ultra/N{N}/[{x0},{x1}]/agrees-with-dense-chebyshev/D{p}', close(matvec(Sp, matvec(Dc, c)), matvec(Du, c), tol), c, 'ultraspherical/agrees-with-chebyshev',
                    lambda cv, Sp=Sp, Dc=Dc, Du=Du: float(np.abs(Sp @ (Dc @ cv) - Du @ cv).max()))
     rep.sample({'case': f'ultra/N{N}', 'free': 'coefficient vector in [-1,1]^N', 'oracle': 'Gegenbauer polynomials by exact three-term recurrence'}, limit=4)
+
+
+def transform_case(rep, N):
+    """transform / itransform are linear: their matrices are read off the REAL functions by feeding unit vectors (DCT / FFT run concretely); the solver
+    then decides over all data in the unit box that they are inverse to each other and that the transform of the grid values of a Chebyshev series
+    returns its coefficients (values from exact three-term recurrences); the Fourier synthesis of a unit coefficient is the mode exp(i k (x - x0))"""
+    from pySDC.helpers.spectral_helper import ChebychevHelper, UltrasphericalHelper, FFTHelper
+
+    tol = rv(Fraction(1, 10**10))
+    for cls, tag in ((ChebychevHelper, 'cheb'), (UltrasphericalHelper, 'ultra')):
+        for (x0, x1) in ((-1.0, 1.0), (1.0, 3.0), (-0.5, 0.25)):
+            name = f'transform/{tag}/N{N}/[{x0},{x1}]'
+            h = cls(N, x0=x0, x1=x1)
+            Tm = np.array([h.transform(np.eye(N)[:, j].copy()) for j in range(N)]).T
+            Sm = np.array([h.itransform(np.eye(N)[:, j].copy()) for j in range(N)]).T
+            u = [z3.Real(f'u{j}') for j in range(N)]
+            decide(rep, f'{name}:itransform-after-transform', close(matvec(Sm, matvec(Tm, u)), u, tol), u, 'transform/round-trip',
+                   concrete=lambda c, h=h: float(np.abs(h.itransform(h.transform(c.copy())) - c).max()))
+            decide(rep, f'{name}:transform-after-itransform', close(matvec(Tm, matvec(Sm, u)), u, tol), u, 'transform/round-trip',
+                   concrete=lambda c, h=h: float(np.abs(h.transform(h.itransform(c.copy())) - c).max()))
+            # values of T_n at the grid (mapped to the reference interval) from the exact recurrence, exact rational arithmetic on the float grid
+            xg = [Fraction(float(x)) for x in h.get_1dgrid()]
+            xi = [(2 * x - (Fraction(x0) + Fraction(x1))) / (Fraction(x1) - Fraction(x0)) for x in xg]
+            Tn = cheb_T(N)
+            a = [z3.Real(f'a{n}') for n in range(N)]
+            pe = lambda m_, x_: sum((Fraction(m_[i]) * x_**i for i in range(len(m_))), Fraction(0))
+            vals = [sum((rv(pe(Tn[n], xi[j])) * a[n] for n in range(N)), rv(0)) for j in range(N)]
+            decide(rep, f'{name}:coefficients-of-a-Chebyshev-series', close(matvec(Tm, vals), a, tol), a, 'transform/coefficients',
+                   concrete=lambda c, h=h, x0=x0, x1=x1: float(np.abs(h.transform(np.polynomial.chebyshev.chebval((2 * h.get_1dgrid() - (x0 + x1)) / (x1 - x0), c)) - c).max()))
+    for (x0, x1) in ((0.0, 2 * np.pi), (0.5, 2.5)):
+        name = f'transform/fft/N{N}/[{x0:.3g},{x1:.3g}]'
+        h = FFTHelper(N, x0=x0, x1=x1)
+        Tm = np.array([h.transform(np.eye(N, dtype=complex)[:, j].copy()) for j in range(N)]).T
+        Sm = np.array([h.itransform(np.eye(N, dtype=complex)[:, j].copy()) for j in range(N)]).T
+        ur = [z3.Real(f'ur{j}') for j in range(N)]
+        ui = [z3.Real(f'ui{j}') for j in range(N)]
+
+        def capp(Mx, vr, vi):
+            return ([a_ - b_ for a_, b_ in zip(matvec(Mx.real, vr), matvec(Mx.imag, vi))], [a_ + b_ for a_, b_ in zip(matvec(Mx.real, vi), matvec(Mx.imag, vr))])
+
+        for lab, A_, B_ in (('itransform-after-transform', Tm, Sm), ('transform-after-itransform', Sm, Tm)):
+            r1, i1 = capp(A_, ur, ui)
+            r2, i2 = capp(B_, r1, i1)
+            fwd = (lambda c, h=h: h.itransform(h.transform(c))) if lab.startswith('itransform') else (lambda c, h=h: h.transform(h.itransform(c)))
+            decide(rep, f'{name}:{lab}', close(r2 + i2, ur + ui, tol), ur + ui, 'transform/round-trip',
+                   concrete=lambda c, fwd=fwd: float(np.abs(fwd((c[:N] + 1j * c[N:]).astype(complex)) - (c[:N] + 1j * c[N:])).max()))
+        xg, k = h.get_1dgrid(), h.get_wavenumbers()
+        modes = np.exp(1j * np.outer(np.asarray(xg) - x0, k)) / N
+        rep.side(f'{name}:synthesis-of-a-unit-coefficient-is-its-mode', bool(np.abs(Sm - modes).max() < 1e-12), {'max_deviation': float(np.abs(Sm - modes).max())})
+        rep.side(f'{name}:grid-and-wavenumbers', bool(np.allclose(xg, x0 + (x1 - x0) * np.arange(N) / N, atol=1e-14) and np.allclose(k, 2 * np.pi / (x1 - x0) * np.fft.fftfreq(N, 1.0 / N), atol=1e-12)))
+    rep.sample({'case': f'transform/N{N}', 'free': 'grid data / coefficient vectors in the unit box', 'tables': 'matrices of the real transforms from unit vectors'}, limit=2)
 
 
 def edge_case(rep):
